@@ -568,3 +568,45 @@ func init() {
 		IgnoreKinds: []string{"panic", "hang", "deadlock", "spin"},
 	}
 }
+
+func init() {
+	checks["C05"] = &CheckDef{
+		ID: "C05",
+		Jobs: func(tier string, p *Program) []*Job {
+			var jobs []*Job
+			add := func(mode, pre string, k, n int, co string) {
+				j := mkJob(".ZZ_C05_Chunks", ".ZZSetup_TwoShells", "mode", mode, "pre", pre, "k", itoa(k), "n", itoa(n), "co", co)
+				j.Stubs = paintStubs
+				j.Reach = []string{"both-ran"}
+				jobs = append(jobs, j)
+			}
+			pres := map[string][]string{
+				"emacs":      {"\x1b", "\x18", "\x11", "\x1b[", "a"},
+				"vi-insert":  {"\x16", "a"},
+				"vi-command": {"f", "r", "d", "c", "di", "2", "\""},
+			}
+			for _, mode := range []string{"emacs", "vi-insert", "vi-command"} {
+				for _, pre := range pres[mode] {
+					add(mode, pre, 1, 2, "0")
+					add(mode, pre, 1, 2, "1")
+					if tier == "thorough" && len(pre) == 1 {
+						add(mode, pre, 2, 2, "0")
+					}
+				}
+				if tier == "thorough" {
+					add(mode, "", 2, 2, "0")
+				}
+			}
+			return jobs
+		},
+		Assumptions: append([]string{
+			"two shells start from the same buffer; the byte string = concrete prefix + k symbolic bytes; run A gets it in one read, run B under a symbolic chunking (a symbolic cut bit between every two bytes) and with symbolic co-delivery of the next pending chunk in the same read as a cursor-position report (before or after it)",
+			"in vi modes a cut directly after an ESC byte is excluded, as the statement does",
+			"outcome = returned (line, err), or (buffer, cursor, main keymap, local keymap) at the input wait after the last byte",
+		}, stepAssumptions[2:]...),
+		Stubs:  []string{"tty ioctls", "stdin = zzverif.Script, cursor reports through the os.Stdin hook", "stdout discarded"},
+		Bounds: map[string]string{"quick": "prefix + 1 symbolic byte (2 without prefix), initial buffer of 1 letter, first 3 cursor queries may share their read", "thorough": "prefix + 2 symbolic bytes"},
+		Rule:   "one state per completed symbolic path (two Readline runs per path)",
+		IgnoreKinds: []string{"panic", "hang", "deadlock", "spin"},
+	}
+}
